@@ -87,10 +87,6 @@ fn plant_split_fill(script: &str) -> String {
     out
 }
 
-/// planted mutant 3: `reverse` as snapshot + clear + extend (three brackets)
-fn plant_split_reverse(script: &str) -> String {
-    script.replace("  c.reverse()\n", "  t = c.to_tuple()\n  c.clear()\n  c.extend(t.to_list().reverse())\n")
-}
 
 fn stress_request(s: &Stress, dedupe: bool, max_out: usize) -> String {
     let scripts: Vec<String> = s.progs.iter().map(|p| match s.rewrite { Some(f) => f(&script_of(p)), None => script_of(p) }).collect();
